@@ -285,10 +285,12 @@ Qed.
 Lemma PresJ_disconnect_interface X i : PresJ X (disconnect_interface i).
 Proof.
   unfold disconnect_interface. apply PresJ_bind'; [apply PresJ_read | intros _].
-  apply PresJ_bind_get. intros s HJ. unfold get_peers.
-  destruct (peer_cps (fst s) i) as [|x [|y r]] eqn:E; try apply PresJ_ret; try apply PresJ_fail.
+  apply PresJ_bind_get. intros s HJ.
+  destruct (get_peers_typed (fst s) i T_ServicePort) as [[|x [|y r]]|] eqn:E;
+    try apply PresJ_ret; try apply PresJ_fail.
   assert (Hx : class_of g0 x = CCP).
-  { apply (peer_cps_class s i x (J4_cons X s HJ)). rewrite E. left. reflexivity. }
+  { destruct (get_peers_typed_In _ _ _ _ x E (or_introl eq_refl)) as [Hp _].
+    apply (peer_cps_class s i x (J4_cons X s HJ) Hp). }
   apply PresJ_bind'; [|intros _; apply PresJ_ret].
   intros t r t' HJt Et. destruct r. destruct (remove_cp_J4 X x t t' HJt Hx Et) as [A [_ B]]. auto.
 Qed.
@@ -328,7 +330,7 @@ Proof.
 Qed.
 
 Lemma PresJ_node_tail X nm n :
-  PresJ X (bind (m_get (fun g => node_interface_list g n)) (fun ifs =>
+  PresJ X (bind (m_get (fun g => disc_list g (node_interface_list g n))) (fun ifs =>
            bind (for_each_set disconnect_peers_of ifs) (fun _ =>
            bind (m_get (fun g => by_name g CNode nm)) (fun all =>
            bind (uniq all EQuery EQuery) (fun n' => remove_node_graph n'))))).
